@@ -12,7 +12,7 @@ PROP = {
         ],
         "lanes": [
             native("c18"),
-            # 3-18 s per tree under Miri (measured): 8 trees per seed, rotating over the four runtimes
-            miri("c18", seeds_q=0, seeds_t=8, scale=1, args={"trees": 8}),
+            # 3-18 s per tree under Miri (measured): 6 trees per seed, rotating over the four runtimes
+            miri("c18", seeds_q=0, seeds_t=8, scale=1, args={"trees": 6}),
         ],
     }
